@@ -247,7 +247,7 @@ def check_c14(ck, tier, replay=None):
         ck.inconc('waiting-time harness: ' + str(e)[:300])
     for f in found:
         rep = common.write_replay('C14', str(f), {}, {'finding': [str(x) for x in f]})
-        ok, why = replay(f)
+        ok, why = replay_native(f)
         ck.violation('C14 ' + str(f[0]) + ' ' + str(f[2] if f[0].startswith('tree') else f[1])[:60], 'counterexample %s ; %s' % (str(f)[:300], why), rep, reproduced=ok)
 
 def _num(x, d=1.0):
@@ -256,7 +256,7 @@ def _num(x, d=1.0):
         try: return float(str(x).rstrip('?'))
         except Exception: return d
 
-def replay(f):
+def replay_native(f):
     """native re-evaluation: measure of the selection set by scanning p on a fine grid (tree) / ratio check (rates)"""
     if f[0] in ('tree', 'tree2'):
         mdl = f[3] or {}
